@@ -130,21 +130,23 @@ Definition mk_days (u0 : Z) (obs : bool) (locs : list (option err)) (hs : list (
 Definition outcome_of (pol : policy) (days : list day) : res (list (Z * option Z)) :=
   hourly_predict zmean (fun _ => 0%Z) zero_regress pol days.
 
-(* D11: no usage column (all NaN) across a clock change: DST days are detected from the count of non-null usage *)
+(* D11 (repaired in /repo by commit 1e1d6b17; kept as the regression witness): no usage column (all NaN) across a
+   clock change: DST days were detected from the count of non-null usage *)
 Definition w_pat_dst : list daykind := [Reg; Short 2; Reg].
 Definition w_no_observed : list day := mk_days 0 false [] (map clock_hours w_pat_dst).
 Example C06_hourly_refuted_without_observed :
   Forall2 clock_only w_no_observed w_pat_dst /\ forallb kind_ok w_pat_dst = true /\ pattern_ok w_pat_dst = true
   /\ outcome_of as_coded w_no_observed = Err ERagged
+  /\ (exists rows, outcome_of d11_repaired w_no_observed = Ok rows /\ length rows = 71)
   /\ exists rows, outcome_of repaired w_no_observed = Ok rows /\ length rows = 71.
-Proof. split; [repeat constructor | vm_compute; repeat split]. eexists. split; reflexivity. Qed.
+Proof. split; [repeat constructor | vm_compute; repeat split]; eexists; split; reflexivity. Qed.
 
 (* D18: the clock changes at local midnight, df.loc["YYYY-MM-DD"] cannot resolve the date *)
 Definition w_pat_midnight : list daykind := [Reg; Short 0; Reg].
 Definition w_midnight : list day := mk_days 0 true [None; Some EKey; None] (map clock_hours w_pat_midnight).
 Example C06_hourly_refuted_midnight_change :
   Forall2 clock_only w_midnight w_pat_midnight /\ pattern_ok w_pat_midnight = true
-  /\ outcome_of as_coded w_midnight = Err EKey
+  /\ outcome_of as_coded w_midnight = Err EKey /\ outcome_of d11_repaired w_midnight = Err EKey
   (* after the repair of D18 the hour-0 branch of correct_dst is reached and works *)
   /\ exists rows, outcome_of repaired w_midnight = Ok rows /\ length rows = 71.
 Proof. split; [repeat constructor | vm_compute; repeat split]. eexists. split; reflexivity. Qed.
@@ -182,19 +184,22 @@ Theorem C06_hourly_without_observed_always_fails :
 Proof. intros V. exact (@hourly_predict_unobserved_fails V). Qed.
 Print Assumptions C06_hourly_without_observed_always_fails.
 
-(* D18: a short or long day whose date label cannot be resolved always makes the unchanged _get_dst_indices fail *)
-Theorem C06_unresolvable_label_always_fails : forall days pat,
-  Forall2 observed_clock days pat -> forallb kind_ok pat = true ->
+(* D18: a short or long day whose date label cannot be resolved always makes _get_dst_indices fail as long as rows
+   are looked up by label (`as_coded` and `d11_repaired`, i.e. also after the repair of D11) *)
+Theorem C06_unresolvable_label_always_fails : forall pol, loc_by_mask pol = false ->
+  forall days pat, Forall2 (counted_clock pol) days pat -> forallb kind_ok pat = true ->
   Exists (bad_label is_change) (combine days pat) ->
-  exists e, get_dst_indices as_coded days = Err e.
+  exists e, get_dst_indices pol days = Err e.
 Proof. exact get_dst_indices_bad_label. Qed.
 Print Assumptions C06_unresolvable_label_always_fails.
 Example C06_nonvacuous_necessity :
   Forall2 unobserved_clock w_no_observed w_pat_dst /\ existsb is_change w_pat_dst = true
-  /\ Forall2 observed_clock w_midnight w_pat_midnight
+  /\ Forall2 (counted_clock d11_repaired) w_midnight w_pat_midnight
+  /\ Forall2 (counted_clock as_coded) w_midnight w_pat_midnight
   /\ Exists (bad_label is_change) (combine w_midnight w_pat_midnight).
 Proof.
-  split; [repeat constructor|]. split; [reflexivity|]. split; [repeat constructor|].
+  split; [repeat constructor|]. split; [reflexivity|]. split; [repeat constructor; discriminate|].
+  split; [repeat constructor|].
   apply Exists_cons_tl. apply Exists_cons_hd. split; [reflexivity | discriminate].
 Qed.
 
@@ -221,6 +226,13 @@ Proof.
     apply C06_contiguous_index. lia.
   - split; [reflexivity|]. split; [vm_compute; reflexivity|]. eexists. vm_compute. repeat split.
 Qed.
+Example C06_nonvacuous_correct_dst :
+  let agg := map (fun k => map Z.of_nat (clock_hours k)) ex_pat in
+  Forall2 (fun k f => length f = rows_expected k) ex_pat agg
+  /\ exists agg', feature_matrix zmean agg (indices_of ex_pat) = Ok agg' /\ map (@length Z) agg' = [24; 24; 24; 24; 24]
+       /\ nth_error (nth 1 agg' []) 2 = Some 2%Z        (* synthesised slot: mean of hours 1 and 3 *)
+       /\ nth_error (nth 3 agg' []) 1 = Some 1%Z.       (* merged slot: the two occurrences of hour 1 *)
+Proof. split; [repeat constructor|]. eexists. vm_compute. repeat split. Qed.
 Example C06_nonvacuous_transform :
   let pred := map (fun n => (4 * Z.of_nat n)%Z) (seq 0 120) in
   length pred = 24 * length ex_pat
